@@ -45,7 +45,7 @@ type Case struct {
 	Parser         string `json:"parser,omitempty"`
 	Arg            int    `json:"arg,omitempty"`
 	ExpectTooLarge int    `json:"expect_413,omitempty"` // 1: must be 413, 2: must not be 413
-	// HeadIntact: the input is a HEAD request whose header block is the seed's, unchanged (the edit lies in the body):
+	// HeadIntact: the input is a HEAD request whose request line is the seed's, unchanged (the edit lies in a header field or the body):
 	// the server has read the method, so whatever it answers, it answers a HEAD - no bytes after the header block
 	HeadIntact bool `json:"head_intact,omitempty"`
 }
@@ -482,7 +482,8 @@ func run(c *mc.Ctx) {
 			for _, st := range []bool{false, true} {
 				for _, bw := range []bool{false, true} {
 					cs := Case{Side: j.side, Input: m, Streaming: st, Bytewise: bw}
-					if hb := strings.Index(j.seed, "\r\n\r\n"); j.side == "server" && strings.HasPrefix(j.seed, "HEAD ") && hb > 0 && len(m) >= hb+4 && m[:hb+4] == j.seed[:hb+4] {
+					// the request line of a HEAD seed is untouched: the server has read the method before anything can fail
+					if fl := strings.Index(j.seed, "\r\n"); j.side == "server" && strings.HasPrefix(j.seed, "HEAD ") && fl > 0 && len(m) >= fl+2 && m[:fl+2] == j.seed[:fl+2] {
 						cs.HeadIntact = true
 					}
 					var v string
@@ -659,6 +660,8 @@ func numericGrid() []Case {
 		for _, d := range []string{strings.Repeat("9", k), "1" + strings.Repeat("0", k-1), strings.Repeat("0", k-1) + "1"} {
 			for _, st := range []bool{false, true} {
 				out = append(out, Case{Side: "server", Streaming: st, Input: "POST /n HTTP/1.1\r\nHost: h\r\nContent-Length: " + d + "\r\n\r\na"})
+				// the same with the body limit switched off (MaxRequestBodySize <= 0): nothing may be reserved for a length that is only announced
+				out = append(out, Case{Side: "server", Streaming: st, MaxBody: -1, Input: "POST /n HTTP/1.1\r\nHost: h\r\nContent-Length: " + d + "\r\n\r\na"})
 				out = append(out, Case{Side: "client", Streaming: st, Input: "HTTP/1.1 200 OK\r\nContent-Length: " + d + "\r\n\r\na"})
 			}
 		}
